@@ -22,7 +22,7 @@ import (
 // at PC (where this implementation overlays the supplied bytes).
 func c06IM0Any(c *Ctx) (n, skipped int64) {
 	encs := InScopeEncodings()
-	per := c.Pick(24, 400)
+	per := c.Pick(24, 6000)
 	var mu sync.Mutex
 	Parallel(len(encs), func(ei int) {
 		enc := encs[ei]
@@ -167,7 +167,7 @@ func c06IM0Any(c *Ctx) (n, skipped int64) {
 // memory holds NOW.
 func c06Repeated(c *Ctx) (n int64) {
 	r := mon.NewRng(uint64(c.Seed) ^ 0xC06E)
-	nseq := c.Pick(3000, 60000)
+	nseq := c.Pick(3000, 1500000)
 	mems := [2]*mon.Mem{{}, {}}
 	mems[0].Fill(r.U64())
 	mems[1].Fill(r.U64())
